@@ -45,7 +45,13 @@ def variant(base, mtrace, kind, i, g):
     if kind == "clean":
         return nodes
     if kind == "processor_exception":
-        f = {"processor": "VBoom"} if (t == "Float" and alt) else {"processor": "VCtxBoom"}
+        if t == "Float" and g.chance(0.35):
+            # an exception class that is not "one message string" (UnicodeDecodeError, ExceptionGroup, OSError(errno, ..), ...)
+            from vlib.components import ODD_EXCEPTION_KINDS
+
+            f = {"processor": "VRaise", "parameters": {"exc": g.rng.choice(ODD_EXCEPTION_KINDS)}}
+        else:
+            f = {"processor": "VBoom"} if (t == "Float" and alt) else {"processor": "VCtxBoom"}
     elif kind == "unresolvable_param":
         f = {"processor": "VMul"} if (t == "Float" and alt and "factor" not in base["ctx"]) else {"processor": "rename:__no_such_key__:zz"}
     elif kind == "type_gate":
@@ -71,6 +77,10 @@ def check_variant(run, nodes, data, ctx, detail, mode, scratch, intended):
         return None
     boom, abort = components.VBoomError("prebuilt boom"), components.VAbort("prebuilt abort")
     components.PREBUILT["boom"], components.PREBUILT["abort"] = boom, abort
+    odd = None
+    for n in nodes:
+        if n.get("processor") == "VRaise":
+            odd = components.PREBUILT["odd"] = components._odd_exception((n.get("parameters") or {}).get("exc", "zero_division"))
     try:
         tr = tc.traced_run(nodes, data, ctx, detail=detail, mode=mode, scratch=scratch)
     finally:
@@ -109,6 +119,8 @@ def check_variant(run, nodes, data, ctx, detail, mode, scratch, intended):
     if not real.ok:
         if m.fail_detail == "VBoomError" and real.exc is not boom:
             viol("exception_not_original", f"caller received {real.exc!r}, the component raised the pre-built {boom!r}")
+        if odd is not None and m.fail_kind == "processor_error" and m.fail_detail == type(odd).__name__ and real.exc is not odd:
+            viol("exception_not_original", f"caller received {real.exc!r}, the component raised the pre-built {odd!r}")
         if m.fail_detail == "VAbort" and real.exc is not abort:
             viol("exception_not_original", f"caller received {real.exc!r}, the component raised the pre-built {abort!r}")
     if mode == "dir" and len(tr.files) != 1:
